@@ -74,6 +74,32 @@ class Exhaust:
                     for val, tb in (tg.items() if isinstance(tg, dict) else tg):
                         if val == 0:
                             facts[(sw, tb)] = True
+        # the same iteration written as a chain that is drained by its consumer (`src.iter().map(..).collect::<Result<Vec<_>, _>>()?`):
+        # a complete collection (or the Ok side of a collection into Result, which stops early only with Err) has seen every byte
+        chain = re.compile(r'(^|::)(as_ref|deref|iter|into_iter|copied|cloned|borrow|as_slice|map|enumerate|inspect|by_ref)$')
+        for bi, t in b.calls():
+            nm = callee_name(t) or ''
+            if not re.search(r'::(collect|sum|count|for_each|fold|last)$', nm) or not t['args'] or t.get('target') is None or place_proj(t['dest']):
+                continue
+            og = Origin(b, transparent=chain).of_operand(t['args'][0])
+            if not any(l[0] == 'arg' and l[1] == buf for l in og):
+                continue
+            if any(l[0] == 'binop' or (l[0] == 'call' and not chain.search(l[1] or '')) or (l[0] == 'agg' and not (l[1] in self.F.bodies and self.F.bodies[l[1]].d.get('kind') == 'Closure')) for l in og):
+                continue
+            dty = b.local_ty(t['dest']['l']) or ''
+            if not re.match(r'^std::(result::Result|option::Option)<', dty):
+                facts[(bi, t['target'])] = True
+                continue
+            if not dty.startswith('std::result::Result<'):
+                continue
+            nb = b.blocks[t['target']]
+            nt = nb['term']
+            at = bi
+            if nt['k'] == 'call' and re.search(r'as std::ops::Try>::branch$', callee_name(nt) or '') and nt['args'] and (op_place(nt['args'][0]) or {}).get('l') == t['dest']['l']:
+                at = t['target']
+            r = discr_switch_after_call(b, at)
+            if r and 0 in r[1]:
+                facts[(r[0], r[1][0])] = True
         for sb in sorted(b.live):
             t = b.blocks[sb]['term']
             if t['k'] != 'switch':
